@@ -137,6 +137,16 @@ def check_compose(root, spec, o=None):
             bad = f'rows of the source files missing from the report: {left[:3]}'
         if bad:
             fails.append({'law': 'compose/ground-truth', 'detail': bad})
+    # classification ground truth stated by the generator: legacy CSV patterns (P matches D iff it is found in D.upper(),
+    # case-insensitively) and the hand-written expectations of corpus budgets
+    expect = dict(B.csv_expect(spec))
+    expect.update({k: tuple(v) for k, v in (spec.get('expect') or {}).items()})
+    for t in o['txns']:
+        e = expect.get(t[2])
+        if e and ((e[0] is not None and e[0] != t[4]) or (e[1], e[2]) != (t[5], t[6])):
+            fails.append({'law': 'compose/classification-ground-truth',
+                          'detail': f'{t[2]!r} ({t[0]}) is reported as {t[4]} / {t[5]} / {t[6]}, the rules say {e}'})
+            break
     # supplemental rows never appear as transactions
     supp_names = {s['name'] for s in spec['sources'] if s['supplemental']}
     if any(t[0] in supp_names for t in o['txns']):
@@ -187,6 +197,16 @@ def check_frame(root, spec, kind, i, variant, base=None):
         if a != b:
             fails.append({'law': f'frame/{kind}', 'detail': f'changing {kind} changed the parsed rows (source, date, description, |amount|): '
                           + str(first_diff([list(x) for x in a], [list(x) for x in b]))})
+    elif kind == 'rename':
+        a, b = sorted(t[1:] for t in base['txns']), sorted(t[1:] for t in v['txns'])
+        if a != b or base['sections'] != v['sections']:
+            fails.append({'law': 'frame/rename', 'detail': f"renaming source #{i} ({spec['sources'][i]['name']!r}) changed figures: "
+                          + str(first_diff([list(x) for x in a], [list(x) for x in b]))})
+        hb, hv = base['html']['data'] or {}, v['html']['data'] or {}
+        for k in ('incomeTotal', 'spendingTotal', 'creditsTotal', 'cashFlow', 'transfersIn', 'transfersOut', 'investmentTotal', 'numMonths'):
+            if hb.get(k) != hv.get(k):
+                fails.append({'law': 'frame/rename', 'detail': f'renaming a source changed {k}: {hb.get(k)} != {hv.get(k)}'})
+                break
     elif kind == 'views':
         if base['txns'] != v['txns']:
             fails.append({'law': 'frame/views', 'detail': 'changing the views changed transactions / classification'})
@@ -291,6 +311,9 @@ def plan_toggles(spec, rnd, k):
             cands.append((kind, i))
     for kind in ('rule_mode', 'rules', 'views', 'currency_format'):
         cands.append((kind, None))
+    if 'source' not in json.dumps(spec['rules']):      # no rule looks at the source name
+        for i in ns:
+            cands.append(('rename', i))
     if spec['rules']['kind'] == 'rules':
         cands.append(('transforms', None))
     for i, s in enumerate(spec['sources']):
@@ -357,6 +380,58 @@ def eval_budget(job):
     return res
 
 
+# ------------------------------------------------------------------ corpus: systematic cases that always run first
+def corpus():
+    R, S = B.simple_row, B.simple_source
+
+    def bud(sources, kind='none', rules=(), csv=(), mode=None, views=None, expect=None):
+        byname = {t[0]: B.mkrule(t) for t in B.RULE_POOL}
+        return {'year': 2025, 'currency_format': None, 'rule_mode': mode, 'sources': sources, 'views': views, 'expect': expect,
+                'rules': {'kind': kind, 'variables': [list(v) for v in B.VARIABLES] if kind == 'rules' else [], 'transforms': [],
+                          'rules': [copy.deepcopy(byname[n]) for n in rules], 'csv': [list(x) for x in csv]}}
+    jan = [R('2025-01-03', 'NETFLIX.COM', 62), R('2025-01-09', 'COSTCO WHSE', 1000), R('2025-01-20', 'UBER TRIP', 90)]
+    feb = [R('2025-02-03', 'NETFLIX.COM', 62), R('2025-02-11', 'SHELL OIL 5521', 160), R('2025-02-25', 'GYM CLUB', 120)]
+    mar = [R('2025-03-03', 'NETFLIX.COM', 62), R('2025-03-15', 'RENT PAYMENT', 4000)]
+    out = []
+    # ---- several sources with exactly the same name (one file per month, all called "Chase")
+    two = bud([S('Chase', 'data/chase-01.csv', copy.deepcopy(jan)), S('Chase', 'data/chase-02.csv', copy.deepcopy(feb))],
+              kind='rules', rules=['Netflix', 'Costco', 'Uber', 'Fuel'])
+    out.append((two, [('rename', 1), ('rename', 0), ('file', 0)], None))
+    three = bud([S('Chase', 'data/chase-01.csv', copy.deepcopy(jan), delimiter=';', sign='-'),
+                 S('Card', 'data/card.csv', copy.deepcopy(mar)),
+                 S('Chase', 'data/chase-02.csv', copy.deepcopy(feb), has_header=False, decimal_separator=','),
+                 S('Chase', 'data/chase-03.csv', copy.deepcopy(mar), delimiter='tab')], kind='csv', csv=B.CSV_POOL[:5],
+                views=[list(B.VIEW_POOL[0]), list(B.VIEW_POOL[1])])
+    out.append((three, [('rename', 0), ('rename', 2), ('rename', 3), ('delimiter', 2)], None))
+    same = bud([S('Chase', 'data/a.csv', copy.deepcopy(jan)), S('Chase', 'data/b.csv', copy.deepcopy(jan))])   # identical content too
+    out.append((same, [('rename', 1)], None))
+    # neighbours: names that differ only in case / contain spaces, non-ASCII letters, YAML-significant characters
+    odd = bud([S('chase', 'data/a.csv', copy.deepcopy(jan)), S('Chase', 'data/b.csv', copy.deepcopy(feb)),
+               S('Chase Visa: #1', 'data/c.csv', copy.deepcopy(mar)), S('Cr\u00e9dit Agricole', 'data/d.csv', copy.deepcopy(feb))],
+              kind='rules', rules=['Netflix', 'Fuel'])
+    out.append((odd, [('rename', 0), ('rename', 2), ('rename', 3)], None))
+    # ---- legacy CSV patterns against descriptions whose upper-case form is longer / different (ß, ligatures, dotless i)
+    de = [R('2025-01-04', 'Gro\u00dfmarkt S\u00fcd', 200), R('2025-01-06', 'Tankstelle Hauptstra\u00dfe 12', 240),
+          R('2025-01-08', 'O\ufb03ce Depot', 100), R('2025-01-10', 'b\u0131m market', 40), R('2025-01-12', 'caf\u00e9 fran\u00e7ais', 30),
+          R('2025-01-14', 'netflix.com', 62), R('2025-01-16', 'Stra\u00dfenbahn Wien', 20), R('2025-01-18', 'fu\u00dfball shop', 80)]
+    csvrules = [['GROSSMARKT', 'Grossmarkt', 'Groceries', 'Market', ''], ['TANKSTELLE.*STRASSE', 'Tankstelle', 'Transport', 'Fuel', ''],
+                ['OFFICE', 'Office Depot', 'Shopping', 'Office', ''], ['BIM', 'Bim', 'Groceries', 'Discount', ''],
+                ['CAF\u00c9', 'Cafe', 'Food', 'Cafe', ''], ['NETFLIX', 'Netflix', 'Subscriptions', 'Streaming', ''],
+                ['^STRASSENBAHN', 'Tram', 'Transport', 'Tram', ''], ['FUSSBALL\\s+SHOP$', 'Fussball', 'Fun', 'Sport', '']]
+    ger = bud([S('Giro', 'data/giro.csv', de)], kind='csv', csv=csvrules)
+    out.append((ger, [('rules', None)], None))
+    # the same descriptions under .rules contains()/regex(): the documented meaning is case-insensitive search
+    byr = bud([S('Giro', 'data/giro.csv', copy.deepcopy(de))], kind='rules',
+              expect={'Gro\u00dfmarkt S\u00fcd': ['Markt', 'Groceries', 'Market'], 'netflix.com': ['Netflix', 'Subscriptions', 'Streaming'],
+                      'caf\u00e9 fran\u00e7ais': ['Cafe', 'Food', 'Cafe']})
+    for name, match, cat, sub in (('Markt', 'contains("GROSSMARKT")', 'Groceries', 'Market'), ('Netflix', 'contains("NETFLIX")', 'Subscriptions', 'Streaming'),
+                                  ('Cafe', 'regex("caf\u00e9")', 'Food', 'Cafe')):
+        byr['rules']['rules'].append({'name': name, 'match': match, 'category': cat, 'subcategory': sub, 'merchant': '', 'tags': [],
+                                      'let': [], 'field': [], 'priority': None})
+    out.append((byr, [], None))
+    return out
+
+
 # ------------------------------------------------------------------ model side (Coq)
 HEADER = '''From Coq Require Import String List Bool Arith.
 From Tally Require Import Lib.Str C11.Model.
@@ -406,7 +481,7 @@ def coq_case(spec, per_source, seqs, rc, names_reported=None, state_override=Non
             for k, t in enumerate(ps['txns']):
                 mid = mids.setdefault(t[3], len(mids))
                 items.append(f'({k}, {mid})')
-                pos.setdefault((s['name'], t[0], t[1], t[2]), []).append((k, t[3]))
+                pos.setdefault((s['name'], t[0], t[1], t[2]), []).append((i, k, t[3]))
             content = 'Some [' + '; '.join(items) + ']'
         elif ps.get('skipped') == 'error' and st == 'present':
             content = 'None'
@@ -420,12 +495,12 @@ def coq_case(spec, per_source, seqs, rc, names_reported=None, state_override=Non
             return None
         out = []
         for (src, dt, desc, amt) in seq:
-            cands = [(k, mm) for (k, mm) in pos.get((src, dt, desc, amt), []) if mm == m and (src, k) not in used]
+            cands = [(si, k) for (si, k, mm) in pos.get((src, dt, desc, amt), []) if mm == m and (si, k) not in used]
             if not cands:
                 return None
-            k = cands[0][0]
-            used.add((src, k))
-            out.append(f"({coq_str('s%d' % idx[src])}, {k})")
+            si, k = cands[0]
+            used.add((si, k))
+            out.append(f"({coq_str('s%d' % si)}, {k})")
         seq_items.append(f"({mids[m]}, [{'; '.join(out)}])")
     status = 0 if rc == 0 else 1
     ws = 'None'
@@ -485,13 +560,15 @@ def main(tier):
     rnd = random.Random(run.seed * 7919 + 11)
     n = 100 if tier == "quick" else 1500
     per = 3 if tier == 'quick' else 5
-    jobs = []
+    jobs = [(k, spec, toggles, miss) for k, (spec, toggles, miss) in enumerate(corpus())]
+    n += len(jobs)
     plan_toggles.count = collections.Counter()
-    for k in range(n):
+    for k in range(len(jobs), n):
         spec = B.gen_budget(rnd)
         toggles = plan_toggles(spec, rnd, per)
         miss = None
-        if k % 3 == 0:
+        names = [s['name'] for s in spec['sources']]
+        if k % 3 == 0 and len(set(names)) == len(names):
             present = [i for i, s in enumerate(spec['sources']) if s['state'] == 'present']
             supp = [i for i in present if spec['sources'][i]['supplemental']]
             if supp and k % 2 == 0:
